@@ -639,14 +639,20 @@ def c_parquet(rng):
     df = sp.GeoDataFrame({'pts': other.arr, 'v': list(range(n)), 'shape': cs.arr})
     npart = rng.choice([2, 3, 12])
     geom = rng.choice([None, 'pts', 'shape'])
-    recipe = {'shape': cs.recipe, 'points': other.recipe, 'npartitions': npart, 'geometry': geom}
+    writer = rng.choice(['to_parquet', 'to_parquet', 'pack_partitions_to_parquet'])
+    recipe = {'shape': cs.recipe, 'points': other.recipe, 'npartitions': npart, 'geometry': geom, 'writer': writer}
     out = []
     d = tempfile.mkdtemp(prefix='rtc_pq_')
     try:
         with dask.config.set(scheduler='synchronous'):
-            ddf = _ddf(df, npart)
             path = d + '/ds.parq'
-            ddf.to_parquet(path)
+            if writer == 'to_parquet':
+                ddf = _ddf(df, npart)
+                ddf.to_parquet(path)
+            else:
+                # the packed writer: rows are re-partitioned along the Hilbert curve of the active (first) geometry
+                # column; which rows end up in which part is read back from the parts themselves
+                _ddf(df, rng.choice([1, 2, 3])).pack_partitions_to_parquet(path, npartitions=min(npart, 4), p=rng.choice([3, 10]))
             r = read_parquet_dask(path, geometry=geom) if geom else read_parquet_dask(path)
             act = geom or 'pts'
             if r.geometry.name != act:
